@@ -1,5 +1,6 @@
 import KoordVerif.Common.Proto
 import KoordVerif.Model.C19DevVF
+import KoordVerif.Model.C19Boot
 /-
 C19 (deviceshare part): model of the per-node device ledger of the scheduler's deviceshare plugin,
 as it is driven by Reserve/Unreserve and by the pod informer handlers, and of the rebuild of a
@@ -281,6 +282,7 @@ def render (un : Univ) (st : St) : List String :=
         without it no allocation has VFs
   dev add <p> <via> | dev del <p> <via> | dev upd <p>      live cache, each followed by a block
   dev fresh | dev radd <p> | dev rupd <p> | dev rdel <p> | dev rend     fresh cache, block at rend
+  dev boot <gated> <k0> <p>^k0 <k1> <p>^k1    start-up of a fresh plugin behind the handlers-sync barrier (Model/C19Boot.lean)
   block: `u`/`f`/`p`/`a` lines (render), `vf <node> <ty> <minor> <bus>*` lines (vfRender), `end`
 -/
 
@@ -452,6 +454,28 @@ def stepLine (d : Drv) (line : String) : Drv :=
     | some p => d.freshOp p (fun gs => gs.map VEv.del)
     | none => d.bad
   | ["dev", "rend"] => { d with out := d.out ++ d.block d.fresh }
+  | "dev" :: "boot" :: rest =>
+    -- start-up stream (ext2): `dev boot <gated> <k0> <p>^k0 <k1> <p>^k1`: a fresh plugin is wired with the REAL
+    -- registerDeviceEventHandler / registerPodEventHandler; registration 0 = pod informer (initial list p^k0),
+    -- 1 = Reservation informer (p^k1); <gated> = the registration whose listener is pinned (2 = none).  As the
+    -- code is written BOTH go through ForceSyncFromInformer, i.e. are collected for WaitForHandlersSync
+    -- (Ties/C19.lean tie_boot_*).  -> `held <0|1>` `opened <0|1>` + the block the first scheduling cycle sees
+    match ints? rest with
+    | some (g :: k0 :: more) =>
+      if g < 0 ∨ g > 2 ∨ k0 < 0 ∨ more.length < k0.toNat + 1 then d.bad else
+      let l0 := more.take k0.toNat
+      match more.drop k0.toNat with
+      | k1 :: l1 =>
+        if k1 < 0 ∨ l1.length ≠ k1.toNat then d.bad else
+        let regs : List Boot.RegInfo := [{ inBarrier := true, gated := g = 0 }, { inBarrier := true, gated := g = 1 }]
+        let (held, opened, seen) := Boot.bootSeen regs [l0, l1]
+        match seen.mapM d.podGroups with
+        | none => d.bad
+        | some gss =>
+          let s := runV (StV.init d.inv) (gss.flatMap (fun gs => gs.map VEv.add))
+          { d with out := d.out ++ [s!"held {b2i held}", s!"opened {b2i opened}"] ++ d.block s }
+      | [] => d.bad
+    | _ => d.bad
   | _ => d.bad
 
 def runCase (lines : List String) : List String := (lines.foldl stepLine {}).out
